@@ -1866,9 +1866,11 @@ class Interp:
         env = Env(frame.env)
         sub = Frame(frame.module, env, frame.qualname)
         sub.handling = frame.handling
+        first_iter = {}
         if len(node.generators) == 1 and not node.generators[0].ifs:
             g0 = node.generators[0]
             it0 = self.eval(g0.iter, sub)
+            first_iter["v"] = it0  # evaluated exactly once (the iterable expression may have effects)
             if isinstance(it0, SSeq) and z3.is_expr(it0.length) and not z3.is_int_value(z3.simplify(it0.length)):
                 # side-effect-free element expression over a symbolic-length sequence:
                 # r with len r = len s and r[i] = e(s[i])   (DESIGN §2.2)
@@ -1891,7 +1893,7 @@ class Interp:
                 out.append(elt_fn(sub))
                 return
             g = node.generators[gi]
-            it = self.eval(g.iter, sub)
+            it = first_iter.pop("v") if (gi == 0 and "v" in first_iter) else self.eval(g.iter, sub)
             for x in self.iterate_concrete(it):
                 self.assign(g.target, x, sub)
                 if all(self.truth(self.eval(c, sub)) for c in g.ifs):
